@@ -148,4 +148,11 @@ zero-filled to the new element count (the model's `Tens.zeros`) -/
 theorem tensor_resize_documented :
     Gen.tensorResizeText = "nrows=nrows_;ncols=ncols_;ntubes=ntubes_;data.clear();data.assign(nrows*ncols*ntubes,scalar_t(0));" := rfl
 
+/-- the `resize` members of the three derived classes only forward to `Tensor::resize` with their own shape
+(square layers, one layer, one column) -/
+theorem tensor_resize_overrides_documented :
+    Gen.tensorResizeAll = ["nrows=nrows_;ncols=ncols_;ntubes=ntubes_;data.clear();data.assign(nrows*ncols*ntubes,scalar_t(0));",
+      "Tensor<scalar_t>::resize(nrows,nrows,ntubes);", "Tensor<scalar_t>::resize(nrows,ncols,1);",
+      "Tensor<scalar_t>::resize(nrows,1,ntubes);"] := rfl
+
 end MTProps.C18
